@@ -2,10 +2,9 @@
 
    Part 1 -- faithful model of the noodles ENCODER, order 0
      (noodles-cram src/codecs/rans_4x8/encode.rs, encode/order_0.rs, encode/header.rs):
-     build_raw_frequencies, describe_frequencies, normalize_frequencies (u32 product and u16
-     correction written out, with the panics of an overflow-checked build), build_cumulative_
-     frequencies, write_frequencies (run-length coding of consecutive symbols, exactly as written,
-     including its treatment of `prev_sym = 0` and `unwrap_or(0)`), state_renormalize, state_step,
+     build_raw_frequencies, describe_frequencies, normalize_frequencies (u64 product, correction
+     spread over the table), build_cumulative_frequencies, write_frequencies (run-length coding
+     of consecutive symbols), state_renormalize, state_step,
      the 4-way interleave, reverse emission, header.
    Part 2 -- an INDEPENDENT DECODER written from the specification's pseudo-code
      (ReadFrequencies0/1, RansDecode0/1, RansGetCumulativeFreq, RansGetSymbolFromFreq,
@@ -51,21 +50,33 @@ Fixpoint describe_go (l : list N) (i : nat) (mx : N) (mi : nat) (sum : N) : nat 
   end.
 Definition describe_frequencies (raw : list N) : nat * N := describe_go raw 0 0 0 0.
 
-(* normalize_frequencies.  None = panic of an overflow-checked build:
-     `sum += f` or `f * 4095` leaving u32, or `normalized_frequencies[max_index] -= excess` leaving u16.
-   (Without overflow checks the same inputs give a wrapped, wrong table.) *)
+(* the correction when the scaled frequencies sum to more than 4095: the excess is taken from
+   the most frequent symbol first and then from the symbols in order, never lowering a non-zero
+   frequency below 1 (`excess.min(g.saturating_sub(1))`; [g - 1] on N saturates at 0) *)
+Fixpoint take_excess (l : list N) (e : N) : list N * N :=
+  match l with
+  | [] => ([], e)
+  | g :: r =>
+    let n := N.min e (g - 1) in
+    let '(r', e') := take_excess r (e - n) in
+    ((g - n) :: r', e')
+  end.
+
+(* normalize_frequencies.  The product f * 4095 is computed in u64.  None = panic of an
+   overflow-checked build when `sum += f` leaves u32 (an input of 2^32 bytes or more, which the
+   header cannot describe either). *)
 Definition normalize_frequencies (raw : list N) : option (list N) :=
   let '(mi, sum) := describe_frequencies raw in
   if TWO32 <=? sum then None
   else if sum =? 0 then Some zeros256
-  else if existsb (fun f => TWO32 <=? f * 4095) raw then None
   else
     let nf := map (fun f => if f =? 0 then 0 else N.max ((f * 4095) / sum) 1) raw in
     let nsum := sumN nf in
     if nsum <? 4095 then Some (upd nf mi (nth mi nf 0 + (4095 - nsum)))
     else if 4095 <? nsum then
-      if nth mi nf 0 <? nsum - 4095 then None
-      else Some (upd nf mi (nth mi nf 0 - (nsum - 4095)))
+      let e := nsum - 4095 in
+      let n0 := N.min e (nth mi nf 0 - 1) in
+      Some (fst (take_excess (upd nf mi (nth mi nf 0 - n0)) (e - n0)))
     else Some nf.
 
 (* build_cumulative_frequencies: C[0] = 0, C[i+1] = C[i] + F[i]  (256 entries) *)
@@ -76,30 +87,30 @@ Fixpoint cumulative_go (fs : list N) (acc : N) : list N :=
   end.
 Definition cumulative (fs : list N) : list N := cumulative_go fs 0.
 
-(* `frequencies[i..].iter().position(|&g| g == 0).unwrap_or(0)` *)
-Fixpoint position_zero (l : list N) (i : nat) : option nat :=
+(* `frequencies[i..].iter().position(|&g| g == 0).unwrap_or(frequencies.len() - i)` *)
+Fixpoint run_len (l : list N) : nat :=
   match l with
-  | [] => None
-  | g :: r => if g =? 0 then Some i else position_zero r (S i)
+  | [] => O
+  | g :: r => if g =? 0 then O else S (run_len r)
   end.
-Definition run_len (l : list N) : nat := match position_zero l 0 with Some p => p | None => 0 end.
 
 Definition itf8_of_freq (f : N) : list N := itf8_enc f.   (* write_itf8(i32::from(u16)) *)
 
-(* write_frequencies.  [l] = the not yet visited (symbol, frequency) pairs, [prev] = prev_sym,
-   [k] = how many entries the inner `iter.by_ref().take(len)` loop still consumes. *)
-Fixpoint write_frequencies_go (l : list (N * N)) (prev : N) (k : nat) : list N :=
+(* write_frequencies.  [l] = the not yet visited (symbol, frequency) pairs, [prevf] = the
+   frequency of the previous symbol (`frequencies[sym - 1]`), [k] = how many entries the inner
+   `iter.by_ref().take(len)` loop still consumes. *)
+Fixpoint write_frequencies_go (l : list (N * N)) (prevf : N) (k : nat) : list N :=
   match l with
   | [] => [0]
   | (sym, f) :: r =>
     match k with
-    | S k' => itf8_of_freq f ++ write_frequencies_go r sym k'
+    | S k' => itf8_of_freq f ++ write_frequencies_go r f k'
     | O =>
-      if f =? 0 then write_frequencies_go r prev 0
-      else if (0 <? sym) && (sym - 1 =? prev) then
+      if f =? 0 then write_frequencies_go r f 0
+      else if (0 <? sym) && (0 <? prevf) then
         let len := run_len (map snd r) in
-        sym :: N.of_nat len :: itf8_of_freq f ++ write_frequencies_go r prev len
-      else sym :: itf8_of_freq f ++ write_frequencies_go r sym 0
+        sym :: N.of_nat len :: itf8_of_freq f ++ write_frequencies_go r f len
+      else sym :: itf8_of_freq f ++ write_frequencies_go r f 0
     end
   end.
 
@@ -366,7 +377,10 @@ Definition spec_decode (bs : list N) : option (list N) :=
       | None => None
       | Some (n, r2) =>
         let len := N.to_nat n in
-        if order =? 0 then
+        (* nothing to decode: the specification is silent about the empty input, whose table is
+           the lone terminator; no table is parsed *)
+        if n =? 0 then Some []
+        else if order =? 0 then
           match spec_read_frequencies0 r2 with
           | None => None
           | Some (F, r3) =>
